@@ -519,6 +519,61 @@ theorem sched_spacing_statement_false : ¬ sched_spacing_statement := by
   exact ⟨250, 1100, [(1000, .norm 100), (1000, .norm 100), (1150, .norm 100), (1150, .norm 100)],
     [0, 0, 1, 1, 1, 0, 2, 2, 2, 0, 3, 3, 3], by decide⟩
 
+/-! ### the exact region
+
+`collides base c s` (`Lemmas/Throttle.lean`) is a function of the start configuration and the schedule alone: along the run,
+some step admits a caller whose pass time is less than its own interval after the latest admitted pass time.  In the code
+that is exactly a caller that takes the idle CAS or the add on a `lastPassedTime` that is not the latest admitted pass time —
+because another caller's interval is still added and about to be rolled back when it reads (`throttle-rollback-collision`),
+has just been taken back under a queued caller (the same finding), or because the add of a caller that lost the CAS left the
+timestamp behind that caller's own pass time (`throttle-stale-add`).  `fullSched c s` is the schedule that is really executed
+(the given entries, then the five drain rounds). -/
+
+/-- **Spacing under schedules, exactly**: for any number of callers and any schedule, the admissions are spaced
+    iff the schedule stays outside the collision region. -/
+theorem sched_spacing_iff (maxQ last : Int) (ws : List (Int × Req)) (s : List Nat) :
+    Spaced last ((Cfg.start maxQ last ws).runSched s).log ↔
+      collides last (Cfg.start maxQ last ws) (fullSched (Cfg.start maxQ last ws) s) = false := by
+  exact spaced_runSched_iff last (Cfg.start maxQ last ws) s (spaced_start maxQ last ws)
+
+section
+attribute [local irreducible] Spaced
+
+/-- …and the collision region lies inside the two classified regions: every collision needs a step taken while another
+    caller is parked before its rollback, or an add that leaves the timestamp behind its caller's clock. -/
+theorem collides_classified (maxQ last : Int) (ws : List (Int × Req)) (s : List Nat)
+    (h : collides last (Cfg.start maxQ last ws) (fullSched (Cfg.start maxQ last ws) s) = true) :
+    ((Cfg.start maxQ last ws).runSched s).rb = true ∨ ((Cfg.start maxQ last ws).runSched s).stale = true := by
+  by_cases hrb : ((Cfg.start maxQ last ws).runSched s).rb = true
+  · exact Or.inl hrb
+  · by_cases hst : ((Cfg.start maxQ last ws).runSched s).stale = true
+    · exact Or.inr hst
+    · exfalso
+      have h2 := collides_false_of last (Cfg.start maxQ last ws) s (spaced_start maxQ last ws) _
+        (sched_spacing_partial maxQ last ws s ((Bool.not_eq_true _).mp hrb) ((Bool.not_eq_true _).mp hst))
+      rw [h2] at h
+      exact Bool.false_ne_true h
+
+end
+
+/-- the region is inhabited: the recorded `throttle-rollback-collision` replay … -/
+theorem collides_witness_rollback :
+    collides 1100 witnessCfg (fullSched witnessCfg [0, 0, 1, 1, 1, 0, 2, 2, 2, 0, 3, 3, 3]) = true := by decide
+
+/-- … and the recorded `throttle-stale-add` replay with its third caller Z (clock 1150) as a thread: no rollback is involved -/
+theorem collides_witness_stale :
+    collides 0 (Cfg.start 250 0 [(1000, .norm 100), (1150, .norm 100), (1150, .norm 100)])
+      (fullSched (Cfg.start 250 0 [(1000, .norm 100), (1150, .norm 100), (1150, .norm 100)]) [0, 1, 0, 1, 1, 1, 2, 2, 2, 2]) = true ∧
+    ((Cfg.start 250 0 [(1000, .norm 100), (1150, .norm 100), (1150, .norm 100)]).runSched [0, 1, 0, 1, 1, 1, 2, 2, 2, 2]).rb = false := by
+  decide
+
+/-- outside the region: a genuinely interleaved schedule without a collision; and the region is strictly smaller than the
+    classified ones — a schedule on which the rollback classifier fires although nothing collides -/
+example :
+    collides 1100 witnessCfg (fullSched witnessCfg [0, 1, 2, 3, 0, 1, 2, 3, 2, 3, 1, 1, 0, 0]) = false ∧
+    collides 1100 witnessCfg (fullSched witnessCfg [0, 1, 2, 3, 0, 1, 2, 3, 1, 0, 3, 2]) = false ∧
+    (witnessCfg.runSched [0, 1, 2, 3, 0, 1, 2, 3, 1, 0, 3, 2]).rb = true := by decide
+
 /-! ## non-vacuity -/
 
 /-- a genuinely interleaved schedule inside the clean region (the hypotheses of `sched_spacing_partial` are satisfiable) -/
